@@ -98,3 +98,16 @@ check('C17', 'exploration',
       'Sampling over configurations and histories; rng-free loss for HypCluster; finite well-scaled inputs.',
       'deterministic simulation: seeded deployment histories with dropout/blackout/restart faults and per-round invariant monitors against reference models',
       'DESIGN.md 2.5, 4 (C17)')
+
+check('C11', 'exploration',
+      'Seeded simulation of aggregator histories with the simulator owning the random source: the initial key is drawn from the run '
+      'seed and the CompressionState is threaded through 3-50 rounds (2000 for the unbiasedness histories in the thorough tier) with '
+      'retry and pickle-restart faults; monitors every round: finiteness/structure, grid membership (uniform, TernGrad), distance of the '
+      'aggregate to the exact weighted mean (step / s / rotated norm bound), pass-through of on-grid, constant and zero leaves, fresh '
+      'randomness across clients (cohort [A] vs [A,A] from one state) and across rounds (repeated cohort; key never repeats), running '
+      'mean within a Hoeffding radius at delta 1e-12, and bit accounting by the documented formula.',
+      'Statistical clauses are decided up to the stated radius; a bias below it (e.g. > vs >=) is invisible. Grid membership is not '
+      'observable for the rotated/DRIVE quantizers without their internal keys.',
+      'deterministic simulation of the random source along aggregator state histories (seeded key schedule, retry/restart faults) with per-round invariant monitors',
+      'DESIGN.md 4 (C11)')
+PENDING.clear()
